@@ -139,6 +139,9 @@ type WL struct {
 	// AltRanges: request_ip_range after a change of the pod template; incarnations created with an odd C pick use it
 	AltRanges [][]string `json:"alt_ranges,omitempty"`
 	NoObject  bool       `json:"no_object"` // the workload object is never created (orphan pods)
+	// Wide: a large index-named app: its three pod slots are the members 1, 10 and 11 (the key of x-1 is a string prefix of the keys
+	// of x-10 and x-11)
+	Wide bool `json:"wide,omitempty"`
 }
 
 func (wl *WL) PodAnnotations() map[string]string {
@@ -180,6 +183,9 @@ func (wl *WL) PodName(i int) string {
 			return wl.Name
 		}
 		return fmt.Sprintf("%s-%d", wl.Name, i-1) // bare pods whose name looks like a stateful pod name
+	}
+	if wl.Wide {
+		return fmt.Sprintf("%s-%d", wl.Name, []int{1, 10, 11}[i%3])
 	}
 	return fmt.Sprintf("%s-%d", wl.Name, i)
 }
